@@ -10,7 +10,7 @@ trap cleanup EXIT INT TERM
 cd "$W" || exit 3
 cp "$D"/demo.* "$W"/ 2>/dev/null
 # the agent's script may hard-code its own worktree path: rewrite to $1 usage if needed
-sed "s#/tmp/wt[0-9]*/C[0-9][0-9][a-z]*#$W/src#g" "$D/build_demo.sh" > "$W/build_demo.sh"; chmod +x "$W/build_demo.sh"
+sed "s#/tmp/w[a-z]*[0-9]*/C[0-9][0-9][a-z]*#$W/src#g" "$D/build_demo.sh" > "$W/build_demo.sh"; chmod +x "$W/build_demo.sh"
 ( cd "$W" && sh ./build_demo.sh "$W/src" >"$W/demo_clean.log" 2>&1 ); rc_clean=$?
 git -C "$W/src" apply "$D/patch.diff" || { echo "NOT-CONFIRMED: patch does not apply"; exit 1; }
 cmake -S "$W/src" -B "$W/b" -G Ninja -DCMAKE_BUILD_TYPE=RelWithDebInfo >/dev/null 2>&1 && cmake --build "$W/b" -j16 >"$W/build.log" 2>&1; rc_build=$?
